@@ -525,7 +525,8 @@ def scancases(draw):
     seed = draw(st.integers(0, 2 ** 31 - 1))
     order = draw(st.sampled_from(["ascending", "descending", "shuffled"]))
     empty = draw(st.booleans())
-    return dict(nfr=nfr, ns=ns, nf=nf, fill=fill, seed=seed, order=order, empty=empty)
+    zigzag = draw(st.booleans())        # the second row is scanned in the opposite direction
+    return dict(nfr=nfr, ns=ns, nf=nf, fill=fill, seed=seed, order=order, empty=empty, zigzag=zigzag)
 
 
 def fake_scan(vol, omega):
@@ -571,7 +572,9 @@ def check_scan(case, rec=None):
         omega = rng.permutation(omega)
     fails = []
     scans, labs = [], []
+    omegas = [omega, omega[::-1].copy() if case.get("zigzag") else omega]
     for r, v in enumerate(vols):
+        omega = omegas[r]
         sc = fake_scan(v, omega)
         ok, res = guard(properties.props, sc, r, "cplabel")
         if not ok:
@@ -629,10 +632,11 @@ def check_scan(case, rec=None):
         else:
             want = {}
             for k in range(nfr):
-                if scans[0].nnz[k] == 0 or scans[1].nnz[k] == 0:
+                k2 = int(np.nonzero(omegas[1] == omegas[0][k])[0][0])       # the frame of row 1 at the same angle
+                if scans[0].nnz[k] == 0 or scans[1].nnz[k2] == 0:
                     continue
-                both = (labs[0][k] > 0) & (labs[1][k] > 0)
-                want[(0, k, 1, k)] = collections.Counter(zip(labs[0][k][both].tolist(), labs[1][k][both].tolist()))
+                both = (labs[0][k] > 0) & (labs[1][k2] > 0)
+                want[(0, k, 1, k2)] = collections.Counter(zip(labs[0][k][both].tolist(), labs[1][k2][both].tolist()))
             got = {}
             for key, (ne, rcl) in pr.items():
                 cnt = collections.Counter()
@@ -644,7 +648,8 @@ def check_scan(case, rec=None):
                 fails.append(fail("scan_pairs", "pairscans: overlaps between the two rows differ from the dense count",
                                   fn="pairscans"))
     if rec is not None:
-        rec.case(case, nfr >= 2 and case["fill"] >= 0.2, ["scan:" + case["order"]])
+        rec.case(case, nfr >= 2 and case["fill"] >= 0.2, ["scan:" + case["order"]] +
+                 (["scan:zigzag"] if case.get("zigzag") else []))
     return fails
 
 
